@@ -11,7 +11,12 @@ across restarts; per (table, follower) a `followSpec.offset`; the WAL reader pos
 dedup offset `prior` of `doFollowLeaders`, the table pipeline `pending` between
 `doFollowLeaders` and the row store, the row store abstracted by the list of (source, offset)
 APPLICATIONS it reflects: in memory (`memApps`, with `memOff` = `memstore.offsetsBySource`),
-on disk (`diskApps`/`diskOff` = newest filestore header / offset file) and in a directory
+on disk — TWO records, as in row_store.go: the newest filestore (`diskApps` with the offsets of
+its header `diskOff`, written by a flush that finds data in the memstore) and the `offset` file
+(`offFile`, rewritten only by a flush that finds the memstore EMPTY while its offsets advanced,
+i.e. after skipped entries only); `openRowStore` recovers the data of the filestore and, per
+source, the MAXIMUM of the two offset records (`recOff`; `cx.recoverMax = false` is the variant
+"an existing offset file wins", kept for the counterexample) — and in a directory
 snapshot; refinement of applications to aggregates is C01/C02).  Links (leader, follower):
 FIFO, can be cut, entries in flight are then lost.
 
@@ -29,7 +34,8 @@ the minimum spec offset): `spec := max(claim t, EarliestOffset)`.  `claim t` is 
 the request shows; the request shares the follower's LIVE per-table offset map
 (`PartitionTable.Offsets` is the map `doFollowLeaders` keeps updating), so over gRPC it is the
 dedup offset at the time the request was encoded and in-process at the time the leader reads it:
-some value the table's dedup offset had (`claim t ≤ prior`, the guard).  A request may be
+some value the table's dedup offset had since the table started (`startOff ≤ claim t ≤ prior`,
+the guard: a follower never asks for less than what it recovered from its directory).  A request may be
 handled after its connection (or its follower) has gone: the specs are created all the same,
 the link stays down.  The follower's callback runs once per source concurrently
 (`followSource` is one goroutine per leader): `inflight` is per (follower, source).  An entry
@@ -65,6 +71,7 @@ structure Ctx where
   pid : TId → Nat → Nat
   whereOk : TId → Nat → Bool
   fixedEarliest : Bool
+  recoverMax : Bool := true      -- openRowStore: per-source max of offset file and filestore header
 
 /-- partition match ∧ WHERE: the leader's per-table decision (`mapPartitionRequest` +
     `processFollowers`) and the follower's re-check (`table.insert` + `doInsert`) -/
@@ -92,10 +99,14 @@ structure State where
   pending : FId → TId → LId → List Nat
   memOff : FId → TId → LId → Nat
   memApps : FId → TId → LId → List Nat
-  diskOff : FId → TId → LId → Nat
-  diskApps : FId → TId → LId → List Nat
+  dirty : FId → TId → Bool                  -- the memstore tree holds data since the last flush
+  startOff : FId → TId → LId → Nat          -- the offset the table recovered when it started
+  diskOff : FId → TId → LId → Nat           -- offsets in the header of the newest filestore
+  diskApps : FId → TId → LId → List Nat     -- its data
+  offFile : FId → TId → LId → Nat           -- the `offset` file
   snapOff : FId → TId → LId → Nat
   snapApps : FId → TId → LId → List Nat
+  snapOffFile : FId → TId → LId → Nat
 
 def State.init : State where
   lup := fun _ => true
@@ -116,10 +127,14 @@ def State.init : State where
   pending := fun _ _ _ => []
   memOff := fun _ _ _ => 0
   memApps := fun _ _ _ => []
+  dirty := fun _ _ => false
+  startOff := fun _ _ _ => 0
   diskOff := fun _ _ _ => 0
   diskApps := fun _ _ _ => []
+  offFile := fun _ _ _ => 0
   snapOff := fun _ _ _ => 0
   snapApps := fun _ _ _ => []
+  snapOffFile := fun _ _ _ => 0
 
 inductive Event
   | insert (l : LId) (e : Entry)
@@ -130,7 +145,7 @@ inductive Event
   | recv (f : FId) (t : TId) (l : LId) (o : Nat) (fwd : Bool)
   | msgdone (f : FId) (l : LId) (o : Nat)
   | apply (f : FId) (t : TId) (l : LId) (o : Nat) (hasKey : Bool)
-  | persist (f : FId) (t : TId)
+  | persist (f : FId) (t : TId) (data : Bool)
   | snapshot (f : FId)
   | stopFollower (f : FId)
   | restoreSnapshot (f : FId)
@@ -178,6 +193,14 @@ def advance (cx : Ctx) (e : Entry) (t : TId) (f : FId) (sp : Option Nat) : Optio
 /-- is the follower in the middle of handing an entry of leader `l` to its tables? -/
 def inflightFrom (s : State) (f : FId) (l : LId) : Bool := (s.inflight f l).isSome
 
+/-- `openRowStore`: the offset a table resumes from for one source.  On HEAD the per-source
+    maximum of the `offset` file and the header of the newest filestore
+    (`offsetsBySource = newOffsetsBySource.Advance(offsetsBySource)`); the variant lets an existing
+    offset file win and uses the header only as a fallback. -/
+def recOff (cx : Ctx) (s : State) (f : FId) (t : TId) (l : LId) : Nat :=
+  if cx.recoverMax then max (s.offFile f t l) (s.diskOff f t l)
+  else if s.offFile f t l ≠ 0 then s.offFile f t l else s.diskOff f t l
+
 def step (cx : Ctx) (s : State) : Event → Option State
   | .insert l e =>
       -- InsertRaw: wal.Write; offsets strictly increase, real offsets are never nil
@@ -202,7 +225,8 @@ def step (cx : Ctx) (s : State) : Event → Option State
       -- table's dedup offset had between start-up and now (never more than it has now, and an
       -- offset of this leader's WAL even when the request outlived its follower)
       if s.lup l = true ∧ s.reqPending l f = true ∧ (∀ t ∈ cx.tables, claim t ≤ top (s.wal l)) ∧
-          (s.connected l f = true → inflightFrom s f l = false ∧ ∀ t ∈ cx.tables, claim t ≤ s.prior f t l) then
+          (s.connected l f = true → inflightFrom s f l = false ∧
+            ∀ t ∈ cx.tables, s.startOff f t l ≤ claim t ∧ claim t ≤ s.prior f t l) then
         let start := fun t => max (claim t) (s.reqEarliest l f)
         let spec' := fun t f' => if f' = f ∧ t ∈ cx.tables then some (start t) else s.spec l t f'
         let joined' := if f ∈ s.joined l then s.joined l else f :: s.joined l
@@ -271,20 +295,31 @@ def step (cx : Ctx) (s : State) : Event → Option State
             pending := fun f' t' l' => if f' = f ∧ t' = t ∧ l' = l then rest else s.pending f' t' l'
             memOff := fun f' t' l' => if f' = f ∧ t' = t ∧ l' = l then o else s.memOff f' t' l'
             memApps := fun f' t' l' => if f' = f ∧ t' = t ∧ l' = l ∧ hasKey = true
-                                       then s.memApps f t l ++ [o] else s.memApps f' t' l' }
+                                       then s.memApps f t l ++ [o] else s.memApps f' t' l'
+            dirty := fun f' t' => if f' = f ∧ t' = t ∧ hasKey = true then true else s.dirty f' t' }
         else none
       | _, _ => none
-  | .persist f t =>
-      -- flush: new filestore (data + offsets) or offset file; all sources at once
+  | .persist f t true =>
+      -- flush with data in the memstore: a new filestore (data + the memstore's offsets in its
+      -- header), all sources at once; the `offset` file is left as it is
       if s.fup f = true then
         some { s with
           diskOff := fun f' t' l => if f' = f ∧ t' = t then s.memOff f t l else s.diskOff f' t' l
-          diskApps := fun f' t' l => if f' = f ∧ t' = t then s.memApps f t l else s.diskApps f' t' l }
+          diskApps := fun f' t' l => if f' = f ∧ t' = t then s.memApps f t l else s.diskApps f' t' l
+          dirty := fun f' t' => if f' = f ∧ t' = t then false else s.dirty f' t' }
+      else none
+  | .persist f t false =>
+      -- flush that finds the memstore EMPTY while its offsets advanced (only skipped entries
+      -- arrived since the last flush): `writeOffsets` rewrites the `offset` file
+      if s.fup f = true ∧ s.dirty f t = false then
+        some { s with
+          offFile := fun f' t' l => if f' = f ∧ t' = t then s.memOff f t l else s.offFile f' t' l }
       else none
   | .snapshot f =>
       some { s with
         snapOff := fun f' t l => if f' = f then s.diskOff f t l else s.snapOff f' t l
-        snapApps := fun f' t l => if f' = f then s.diskApps f t l else s.snapApps f' t l }
+        snapApps := fun f' t l => if f' = f then s.diskApps f t l else s.snapApps f' t l
+        snapOffFile := fun f' t l => if f' = f then s.offFile f t l else s.snapOffFile f' t l }
   | .stopFollower f =>
       if s.fup f = true then
         some { s with
@@ -298,20 +333,25 @@ def step (cx : Ctx) (s : State) : Event → Option State
       if s.fup f = false then
         some { s with
           diskOff := fun f' t l => if f' = f then s.snapOff f t l else s.diskOff f' t l
-          diskApps := fun f' t l => if f' = f then s.snapApps f t l else s.diskApps f' t l }
+          diskApps := fun f' t l => if f' = f then s.snapApps f t l else s.diskApps f' t l
+          offFile := fun f' t l => if f' = f then s.snapOffFile f t l else s.offFile f' t l }
       else none
   | .startFollower f =>
-      -- openRowStore: memstore starts from the newest file; startFollowing/followLeaders/
-      -- makeFollows: the announced table offsets and EarliestOffset come from the directory
+      -- openRowStore: the memstore starts from the newest filestore, the offsets are the
+      -- per-source maximum of the `offset` file and the filestore's header (`recOff`);
+      -- startFollowing/followLeaders/makeFollows: the announced table offsets and EarliestOffset
+      -- are those recovered offsets
       if s.fup f = false then
         some { s with
           fup := fun f' => if f' = f then true else s.fup f'
           inflight := fun f' l => if f' = f then none else s.inflight f' l
-          prior := fun f' t l => if f' = f then s.diskOff f t l else s.prior f' t l
+          prior := fun f' t l => if f' = f then recOff cx s f t l else s.prior f' t l
+          startOff := fun f' t l => if f' = f then recOff cx s f t l else s.startOff f' t l
           pending := fun f' t l => if f' = f then [] else s.pending f' t l
-          memOff := fun f' t l => if f' = f then s.diskOff f t l else s.memOff f' t l
+          memOff := fun f' t l => if f' = f then recOff cx s f t l else s.memOff f' t l
           memApps := fun f' t l => if f' = f then s.diskApps f t l else s.memApps f' t l
-          earliest := fun f' l => if f' = f then earliestOf cx (fun t => s.diskOff f t l) else s.earliest f' l }
+          dirty := fun f' t => if f' = f then false else s.dirty f' t
+          earliest := fun f' l => if f' = f then earliestOf cx (fun t => recOff cx s f t l) else s.earliest f' l }
       else none
   | .cutLink l f =>
       some { s with
